@@ -265,9 +265,27 @@ func c06RacePass(tier string, cov map[string]interface{}) []run.Violation {
 			mu.Unlock()
 		}(lo, hi)
 	}
+	driverRuns := scenariosRun
+	// the shared-document product: every short path, two goroutines on one document object
+	sharedPaths, sharedDocs := conc.SharedDocProduct(tier)
+	sharedRuns := 0
+	for sh := 0; sh < shards; sh++ {
+		lo, hi := len(sharedPaths)*sh/shards, len(sharedPaths)*(sh+1)/shards
+		wg.Add(1)
+		go func(lo, hi int) {
+			defer wg.Done()
+			v, n, g := c06RaceRangeMode(bin, tier, "shared", lo, hi)
+			mu.Lock()
+			vs = append(vs, v...)
+			sharedRuns += n
+			goroutines += g
+			mu.Unlock()
+		}(lo, hi)
+	}
 	wg.Wait()
+	cov["race_pass_shared_documents"] = fmt.Sprintf("%d paths x %d documents, each evaluated by three goroutines at once on one document object (any write to caller data is a race)", sharedRuns, len(sharedDocs))
 	sort.Slice(vs, func(a, b int) bool { return vs[a].Sig < vs[b].Sig })
-	cov["race_pass"] = fmt.Sprintf("free-running -race pass over %d driver runs (threads replicated 1x/2x/8x, barrier start): %d race/crash reports; this is a sampled happens-before check, not part of the exhaustive count", scenariosRun, len(vs))
+	cov["race_pass"] = fmt.Sprintf("free-running -race pass over %d driver runs (threads replicated 1x/2x/8x, barrier start) and the shared-document product: %d race/crash reports; this is a sampled happens-before check, not part of the exhaustive count", driverRuns, len(vs))
 	cov["race_pass_goroutines"] = goroutines
 	return vs
 }
@@ -275,9 +293,15 @@ func c06RacePass(tier string, cov map[string]interface{}) []run.Violation {
 // c06RaceRange runs the drivers [lo,hi) in one racepass process, restarting after the driver
 // at which the runtime reported a race (the report ends the process).
 func c06RaceRange(bin, tier string, lo, hi int) (vs []run.Violation, scenariosRun, goroutines int) {
+	return c06RaceRangeMode(bin, tier, "from", lo, hi)
+}
+
+// c06RaceRangeMode: mode "from" = drivers, mode "shared" = the shared-document product
+// (conc.SharedDocProduct: two goroutines evaluate one path on ONE document object).
+func c06RaceRangeMode(bin, tier, mode string, lo, hi int) (vs []run.Violation, scenariosRun, goroutines int) {
 	from := lo
 	for tries := 0; tries < 40 && from < hi; tries++ {
-		cmd := exec.Command(bin, tier, fmt.Sprintf("from:%d:%d", from, hi))
+		cmd := exec.Command(bin, tier, fmt.Sprintf("%s:%d:%d", mode, from, hi))
 		cmd.Env = append(os.Environ(), "GORACE=halt_on_error=1 exitcode=66")
 		var stderr strings.Builder
 		cmd.Stderr = &stderr
@@ -285,6 +309,11 @@ func c06RaceRange(bin, tier string, lo, hi int) (vs []run.Violation, scenariosRu
 		last, lastName := -1, ""
 		for _, line := range strings.Split(string(out), "\n") {
 			var idx int
+			if n, _ := fmt.Sscanf(line, "SHARED %d", &idx); n == 1 {
+				last = idx
+				lastName = "shared document, two goroutines: " + strings.TrimSpace(strings.SplitN(line, " ", 3)[2])
+				scenariosRun++
+			}
 			if n, _ := fmt.Sscanf(line, "SCENARIO %d", &idx); n == 1 {
 				last = idx
 				lastName = strings.TrimSpace(strings.SplitN(line, " ", 3)[2])
